@@ -92,6 +92,11 @@ def initial_contents(spec, by="origin"):
 
 
 def build_labware(spec, shared=None):
+    if spec.get("label"):
+        # the name robotools sees differs from the key the harness uses (two labware objects of one name)
+        lw = build_labware({k: v for k, v in spec.items() if k != "label"}, shared)
+        lw.name = spec["label"]
+        return lw
     if spec.get("share") is not None and shared is not None:
         # several labware constructed from one and the same float64 array object (a user's template)
         arr = shared.setdefault(spec["share"], np.array(spec["init"], dtype=float))
@@ -162,6 +167,8 @@ def dec(x, W=None):
             return Tip[x["$tip"]]
         if "$tuple" in x:
             return tuple(dec(v, W) for v in x["$tuple"])
+        if "$iter" in x:
+            return iter([dec(v, W) for v in x["$iter"]])  # a one-shot iterator
         if "$set" in x:
             return set(dec(v, W) for v in x["$set"])
         if "$npf" in x:
